@@ -37,6 +37,7 @@ class Opts:
         self.nested = True
         self.big_counts = False         # parameter multiplicities around 15/16
         self.float_consts = True        # float constants do not compile in C++ (FLOAT()/DOUBLE(), K17)
+        self.reuse_names = True         # methods of unrelated interfaces may share a name
         self.__dict__.update(kw)
 
 
@@ -284,7 +285,42 @@ def gen_case(rng, opts=None, cid="case"):
     incdirs = sorted({idl._dir_of(p) for p in paths[1:]} - {"."})
     rng.shuffle(incdirs)
     case = {"id": cid, "files": files, "main": "main.idl", "incdirs": incdirs}
+    if opts.reuse_names:
+        reuse_method_names(case, rng)
     return case
+
+
+def reuse_method_names(case, rng):
+    """real IDLs call methods of unrelated interfaces alike (open/close/get): give some methods
+    the name of a method of an interface outside their own inheritance line"""
+    ifs = {n["name"]: n for f in case["files"] for n in f["nodes"] if n["k"] == "interface"}
+
+    def line(name):                     # ancestors, itself, descendants
+        anc, cur = set(), name
+        while cur is not None and cur in ifs:
+            anc.add(cur)
+            cur = ifs[cur].get("base")
+        changed = True
+        rel = set(anc)
+        while changed:
+            changed = False
+            for k, v in ifs.items():
+                if v.get("base") in rel and k not in rel:
+                    # only descendants of `name` itself or of its descendants matter, but being
+                    # generous here only loses opportunities
+                    rel.add(k)
+                    changed = True
+        return rel
+    for name, node in ifs.items():
+        rel = line(name)
+        taken = {m["name"] for k in rel for m in ifs[k]["members"] if m["k"] == "method"}
+        pool = sorted({m["name"] for k, v in ifs.items() if k not in rel for m in v["members"] if m["k"] == "method"} - taken)
+        for m in node["members"]:
+            if m["k"] == "method" and pool and rng.random() < 0.35:
+                new = rng.choice(pool)
+                pool.remove(new)
+                taken.add(new)
+                m["name"] = new
 
 
 def _inc_string(frm, to, rng):
